@@ -973,6 +973,7 @@ class WorkflowConductor(object):
         if new_task_status in statuses.COMPLETED_STATUSES and new_task_status != old_task_status:
             has_manual_fail = False
             staged_next_tasks = []
+            published_ctx_idxs = {}
 
             # Identify task transitions for the current completed task.
             task_transitions = self.graph.get_next_transitions(task_id)
@@ -1018,8 +1019,16 @@ class WorkflowConductor(object):
                     out_ctx_idxs = json_util.deepcopy(task_state_entry["ctxs"]["in"])
 
                     if new_ctx:
-                        self.workflow_state.contexts.append(new_ctx)
-                        new_ctx_idx = len(self.workflow_state.contexts) - 1
+                        # A task transition with multiple next tasks publishes only once.
+                        # Otherwise, each next task gets its own copy and a copy inherited by
+                        # one branch is applied over a more recent value from another branch.
+                        new_ctx_ref = task_transition[3].get("ref")
+
+                        if new_ctx_ref not in published_ctx_idxs:
+                            self.workflow_state.contexts.append(new_ctx)
+                            published_ctx_idxs[new_ctx_ref] = len(self.workflow_state.contexts) - 1
+
+                        new_ctx_idx = published_ctx_idxs[new_ctx_ref]
 
                         # Add to the list of contexts for the next task in this transition.
                         out_ctx_idxs.append(new_ctx_idx)
